@@ -78,3 +78,27 @@ Proof.
 Qed.
 
 End Conform.
+
+(* decidable version of plain_grammar, and hooks for grammars that use none *)
+Definition plain_grammar_b (g : grammar) : bool :=
+  forallb (fun r => match r with
+                    | GRule r => negb (fl_memoize (flags_of (r_directives r))) &&
+                                 negb (fl_left_recursive (flags_of (r_directives r)))
+                    | _ => true
+                    end) g.
+
+Lemma plain_grammar_b_ok g : plain_grammar_b g = true -> plain_grammar g.
+Proof.
+  unfold plain_grammar_b, plain_grammar. intros H r Hin. rewrite forallb_forall in H.
+  specialize (H _ Hin). cbv beta iota in H. apply andb_true_iff in H. destruct H as [H1 H2].
+  apply negb_true_iff in H1. apply negb_true_iff in H2. auto.
+Qed.
+
+Definition no_hooks : hooks unit :=
+  {| h_check := fun _ _ u => (true, u); h_check_char := fun _ _ => true;
+     h_extern := fun _ _ u => (inr [], u) |}.
+Definition no_shooks : shooks :=
+  {| sh_check := fun _ _ => true; sh_check_char := fun _ _ => true; sh_extern := fun _ _ => inr [] |}.
+
+Lemma no_hooks_pure : pure_hooks unit no_hooks no_shooks.
+Proof. repeat split. Qed.
